@@ -4,9 +4,27 @@
 #pragma once
 #include "deps.hpp"
 #include <ctime>
+#include <cstdio>
+#include <cstdlib>
+#include <sys/time.h>
+#include <sys/random.h>
+#include <unistd.h>
 #ifdef VERIF_WRAP
 extern "C" { void* __real_malloc(size_t); void __real_free(void*); time_t __real_time(time_t*);
 void* __wrap_malloc(size_t n) { auto& w = deps::wrap(); if (w.window && !w.in_stub) w.malloc_calls++; return __real_malloc(n); }
 void __wrap_free(void* p) { auto& w = deps::wrap(); if (w.window && !w.in_stub) w.free_calls++; __real_free(p); }
+char* __real_getenv(const char*); char* __real_secure_getenv(const char*); int __real_rand(void); long __real_random(void); ssize_t __real_getrandom(void*, size_t, unsigned); int __real_getentropy(void*, size_t);
+uint32_t __real_arc4random(void); void __real_arc4random_buf(void*, size_t); int __real_clock_gettime(clockid_t, struct timespec*); int __real_gettimeofday(struct timeval*, void*); FILE* __real_fopen(const char*, const char*);
+char* __wrap_getenv(const char* n) { auto& w = deps::wrap(); if (w.watching()) { w.note("getenv", n); if (w.env_fake) return (char*)w.env_fake; } return __real_getenv(n); }
+char* __wrap_secure_getenv(const char* n) { auto& w = deps::wrap(); if (w.watching()) { w.note("secure_getenv", n); if (w.env_fake) return (char*)w.env_fake; } return __real_secure_getenv(n); }
+int __wrap_rand(void) { auto& w = deps::wrap(); if (w.watching()) w.note("rand", nullptr); return __real_rand(); }
+long __wrap_random(void) { auto& w = deps::wrap(); if (w.watching()) w.note("random", nullptr); return __real_random(); }
+ssize_t __wrap_getrandom(void* b, size_t n, unsigned f) { auto& w = deps::wrap(); if (w.watching()) w.note("getrandom", nullptr); return __real_getrandom(b, n, f); }
+int __wrap_getentropy(void* b, size_t n) { auto& w = deps::wrap(); if (w.watching()) w.note("getentropy", nullptr); return __real_getentropy(b, n); }
+uint32_t __wrap_arc4random(void) { auto& w = deps::wrap(); if (w.watching()) w.note("arc4random", nullptr); return __real_arc4random(); }
+void __wrap_arc4random_buf(void* b, size_t n) { auto& w = deps::wrap(); if (w.watching()) w.note("arc4random_buf", nullptr); __real_arc4random_buf(b, n); }
+int __wrap_clock_gettime(clockid_t c, struct timespec* t) { auto& w = deps::wrap(); if (w.watching()) w.note("clock_gettime", nullptr); return __real_clock_gettime(c, t); }
+int __wrap_gettimeofday(struct timeval* t, void* z) { auto& w = deps::wrap(); if (w.watching()) w.note("gettimeofday", nullptr); return __real_gettimeofday(t, z); }
+FILE* __wrap_fopen(const char* p, const char* m) { auto& w = deps::wrap(); if (w.watching()) w.note("fopen", p); return __real_fopen(p, m); }
 time_t __wrap_time(time_t* t) { auto& w = deps::wrap(); if (w.window && !w.in_stub) { w.time_calls++; if (w.fake) { if (t) *t = (time_t)w.fake_time; return (time_t)w.fake_time; } } return __real_time(t); } }
 #endif
